@@ -146,6 +146,7 @@ class Engine:
         self.anc_eq_log = []   # comparisons `ancestor == X` with ancestor from Path::ancestors (monitors.py)
         self.drain_log = []    # (node, start, end) of every VecDeque/Vec drain
         self.index_log = []    # (node, frame, range kind, start, end) of every range-indexing of a slice
+        self.steps = 0
         self.deadline = None         # wall-clock limit of the current exploration (set by World)
         self.max_join_states = 6000  # more states than this at one join point = state explosion, give up
         self.iter_summaries = {}
@@ -1159,6 +1160,9 @@ class Engine:
         head_arg = [None]
 
         def run_block(bb, st, prev):
+            self.steps += 1
+            if self.deadline is not None and (self.steps & 255) == 0 and time.time() > self.deadline:
+                raise BudgetExceeded("exploration of %s exceeded its time budget" % body.path)
             if self.record:
                 self.nodes[(fr.id, bb)] = self.nodes.get((fr.id, bb), 0) + 1
                 if prev is not None and (fr.id, prev) not in self.inlined_nodes:
@@ -1328,8 +1332,12 @@ class Engine:
             return items
         out = []
         buckets = {}
+        n_seen = 0
         for st, prev in items:
             merged = False
+            n_seen += 1
+            if self.deadline is not None and (n_seen & 63) == 0 and time.time() > self.deadline:
+                raise BudgetExceeded("exploration of %s exceeded its time budget (%d states at one join point)" % (fr.body.path, len(items)))
             # states can only merge when everything except compiler-generated flags agrees: bucket them by a signature
             # of exactly that part, so that a join with thousands of states costs a linear pass, not a quadratic one
             sig = self.merge_signature(fr, st) if len(items) > 8 else None
